@@ -612,6 +612,20 @@ def sweep_cases(seed, scale, mini=False):
     return cases
 
 
+def _isolate_reference(cases):
+    """the reference is a clean build in a clean environment: files that earlier invocations left outside the build
+    directory are removed first, and it gets a HOME and a TMPDIR of its own (caches there must not carry over)"""
+    for c in cases:
+        ops = c["jobs"][0]["ops"]
+        for i, op in enumerate(ops):
+            if op["op"] == "invoke" and op.get("label") == "ref":
+                env = dict(op.get("env") or {})
+                env.update({"HOME": "$SIDE/home-ref", "TMPDIR": "$SIDE/tmp-ref"})
+                op["env"] = env
+                ops.insert(i, {"op": "purge_strays", "keep_dirs": ["build.aside"], "keep": True})
+                break
+
+
 def gen_cases(seed, tier, scale=1.0):
     n = int((220 if tier == "quick" else 6000) * scale)
     cases = [gen_history(seed, i, tier) for i in range(n)]
@@ -620,10 +634,15 @@ def gen_cases(seed, tier, scale=1.0):
     cases += [gen_bitmap_pipeline_history(seed, i) for i in range(max(1, n // 10))]
     for c in cases:
         c["jobs"][0]["keep_trace"] = False
+    _isolate_reference(cases)
     if tier == "thorough":
-        cases += sweep_cases(seed, scale)
+        extra = sweep_cases(seed, scale)
     elif scale >= 1.0:
-        cases += sweep_cases(seed, scale, mini=True)
+        extra = sweep_cases(seed, scale, mini=True)
+    else:
+        extra = []
+    _isolate_reference(extra)
+    cases += extra
     return cases
 
 
@@ -737,7 +756,7 @@ def describe(case):
 def extra_coverage(cases, results):
     probes = {"option_dropped_again": 0, "removed_name_brought_back": 0, "reverts": 0, "moved_to_other_directory": 0, "histories_with_backdating": 0,
               "final_rebuilt_nothing_but_font": 0, "torn_planned_not_fired": 0, "sweep_cases": 0, "failed_output_trusted_states": 0,
-              "variable_font_histories": 0, "pngquant_gave_up_and_input_was_reused": 0, "bitmap_pipeline_histories": 0}
+              "variable_font_histories": 0, "pngquant_gave_up_and_input_was_reused": 0, "bitmap_pipeline_histories": 0, "stray_files_outside_build_dir": 0}
     for c in cases:
         ks = c["meta"]["kinds"]
         probes["option_dropped_again"] += sum(1 for k in ks if k.startswith("option-dropped"))
@@ -756,6 +775,9 @@ def extra_coverage(cases, results):
             st = [s for s in f["ninja"][0]["steps"] if "out" in s]
             if len(st) == 1:
                 probes["final_rebuilt_nothing_but_font"] += 1
+        for ev in results[c["id"]][0]["events"]:
+            if ev["op"] == "purge_strays":
+                probes["stray_files_outside_build_dir"] += len(ev.get("strays") or [])
         for r in orch.invokes(results[c["id"]][0]):
             probes["pngquant_gave_up_and_input_was_reused"] += r.get("pngquant_giveups", 0)
             for n in r.get("ninja", []):
